@@ -137,3 +137,31 @@ func EvidenceHook(prob float64, next func(e *core.Engine, rng *rand.Rand, st *co
 		st.Evidence = append(st.Evidence, core.EvidenceSpec{Validator: v.Address.String(), Height: h - int64(rng.Intn(2))})
 	}
 }
+
+// RefNoisePolicy injects mempool CheckTx calls on the replica the oracle observes (index 0), before and after its
+// consensus calls, drawn from the transactions the run's clients have emitted so far (the block in execution and
+// its neighbours preferred). It never crashes anything. A check whose oracle reads one replica uses it in a share
+// of its runs: validation of a transaction must not change what the node then computes for the block.
+type RefNoisePolicy struct {
+	Rng       *rand.Rand
+	Sess      *gen.Session
+	CheckRate float64
+}
+
+func (p *RefNoisePolicy) Decide(e *core.Engine, r *core.Replica, s core.Site) (checks [][]byte, crash bool) {
+	if r.Spec.Index != 0 || s.Handshake || !r.Tr.InitDone || p.Sess == nil || len(p.Sess.Sent) == 0 {
+		return nil, false
+	}
+	if p.Rng.Float64() >= p.CheckRate {
+		return nil, false
+	}
+	pool := p.Sess.Sent
+	for i, n := 0, 1+p.Rng.Intn(3); i < n; i++ {
+		lo := 0
+		if len(pool) > 24 && p.Rng.Intn(4) != 0 {
+			lo = len(pool) - 24
+		}
+		checks = append(checks, pool[lo+p.Rng.Intn(len(pool)-lo)].Bytes)
+	}
+	return checks, false
+}
